@@ -23,6 +23,7 @@ type VM struct {
 
 	backtrace []pos
 	frame     frame
+	verifState
 }
 
 func (v *VM) Set(key string, value Value) { v.globals.Set(key, value) }
